@@ -16,7 +16,7 @@ CHECKS = {
   ref="DESIGN.md §3 C02"),
  "C03": dict(
   technique="property-based testing (proptest) with a differential oracle: the replay-protected sighash specification re-implemented from the wire fields; signatures verified by a reference secp256k1 ECDSA",
-  text="Generated-input search over transactions, input indices, the six FORKID flags, subscripts crossing the compact-size boundaries and all u64 values; the library's preimage must be byte-identical to an independent implementation of the specification, and signatures from Transaction::sign must verify under an independent ECDSA verifier over reference SHA-256d of the reference preimage.",
+  text="Generated-input search over transactions (parsed fresh, or reached through the mutation API after a warm sighash call: one field changed, or inputs / outputs supplied afterwards), input indices, the six FORKID flags, subscripts crossing the compact-size boundaries and all u64 values; the library's preimage must be byte-identical to an independent implementation of the specification, and signatures from Transaction::sign must verify under an independent ECDSA verifier over reference SHA-256d of the reference preimage.",
   note="Trusted: refimpl::sighash (checked against the vectors pinned in /repo/tests/sighash.rs), refimpl::secp/hashes/codec (RFC 6979, NIST, BIP32 vectors), refimpl::wire.",
   ref="DESIGN.md §3 C03, Appendix B"),
  "C04": dict(
@@ -36,7 +36,7 @@ CHECKS = {
   ref="DESIGN.md §3 C06"),
  "C07": dict(
   technique=T+"reference SEC1 / HASH160 / Base58Check / WIF codecs; round trips; rejection of generated corruptions",
-  text="Keys x compression x every prefix byte, hashes with 0..20 leading zero bytes, six corruption operators on addresses and WIF strings, eight classes of candidate public keys; derived values must equal the reference, valid encodings must be accepted, corruptions rejected, from_bytes must accept exactly curve points, get_unlocking_script exactly the address's own key.",
+  text="Keys x compression x every prefix byte, hashes with 0..20 leading zero bytes, seven corruption operators on addresses and WIF strings (incl. the raw bytes of a valid string ending early where the checksum ends in zero bytes, or continued by zero bytes), eight classes of candidate public keys; derived values must equal the reference, valid encodings must be accepted, corruptions rejected, from_bytes must accept exactly curve points, get_unlocking_script exactly the address's own key.",
   note="Trusted: refimpl::secp, refimpl::codec, refimpl::hashes (published vectors). WIF version byte and hybrid SEC1 forms not asserted.",
   ref="DESIGN.md §3 C07"),
  "C08": dict(
